@@ -142,6 +142,24 @@ Theorem C20_pct_mean0 : forall x N, (0 < N)%nat -> ~ cnorm2 (cmean x N) == 0 ->
 Proof. exact pct_mean0. Qed.
 Print Assumptions C20_zscore_mean0_var1.
 
+(* ================================================================= independence of the unit *)
+(* z-scores and percent change do not depend on the unit of the data: for EVERY factor c <> 0
+   (np.std of c x is |c| s, here c > 0 read as c s), so no magnitude exists below which a
+   non-constant series may be left un-normalised; covariances are bilinear in the two factors *)
+Theorem C20_zscore_scale_invariant : forall c x N s t, ~ c == 0 -> ~ s == 0 ->
+  cvar (fun t => cscale c (x t)) N == (c * s) * (c * s) - (c * c) * (s * s - cvar x N) /\
+  zscore_fn (fun t => cscale c (x t)) N (c * s) t =c= zscore_fn x N s t.
+Proof.
+  intros c x N s t Hc Hs. split; [rewrite cvar_scale; ring|apply zscore_scale; assumption].
+Qed.
+Theorem C20_pct_scale_invariant : forall c x N t, ~ c == 0 -> ~ cnorm2 (cmean x N) == 0 ->
+  pct_fn (fun t => cscale c (x t)) N t =c= pct_fn x N t.
+Proof. exact pct_scale. Qed.
+Theorem C20_lagsum_bilinear : forall a b x y N k,
+  lagsum (fun t => cscale a (x t)) (fun t => cscale b (y t)) N k =c= cscale (a * b) (lagsum x y N k).
+Proof. exact lagsum_scale. Qed.
+Print Assumptions C20_zscore_scale_invariant.
+
 (* ================================================================= "along the chosen axis" *)
 (* an n-d array with a chosen axis is (outer, N, inner) in row-major order; entry (o,t,i) of the
    array assembled from per-lane results is entry t of the result of lane (o,i), and the lanes are
